@@ -431,6 +431,10 @@ for _p in ('C09', 'C10'):
 SCHEMALESS = [(D, 'ber.decoder::ConstructedPayloadDecoderBase._decodeComponentsSchemaless')]
 for _p in ('C16', 'C08'):
     PROPS[_p]['contracts'] = PROPS[_p]['contracts'] + SCHEMALESS
+BITS_CONSTRUCTED = [(D, 'ber.decoder::BitStringPayloadDecoder.valueDecoder[constructed]'),
+                    (D, 'ber.decoder::BitStringPayloadDecoder.indefLenValueDecoder[complete]')]
+for _p in ('C09', 'C01', 'C08'):
+    PROPS[_p]['contracts'] = PROPS[_p]['contracts'] + BITS_CONSTRUCTED
 for _p in list(PROPS):
     NOT_CLAIMED.pop(_p, None)
 
